@@ -1,0 +1,34 @@
+//go:build verif
+
+package cgroup
+
+import (
+	"sync"
+
+	"github.com/criyle/go-sandbox/pkg/verifhook"
+)
+
+func verifPoint(name string) { verifhook.Point(name) }
+
+var (
+	verifMu     sync.Mutex
+	verifRandom func() string
+)
+
+// SetRandomNameForVerif overrides the random part of names chosen by Random
+// (nil restores the random generator; a function returning "" falls through).
+func SetRandomNameForVerif(f func() string) {
+	verifMu.Lock()
+	verifRandom = f
+	verifMu.Unlock()
+}
+
+func verifRandomName() string {
+	verifMu.Lock()
+	f := verifRandom
+	verifMu.Unlock()
+	if f == nil {
+		return ""
+	}
+	return f()
+}
